@@ -126,11 +126,44 @@ def run_cvc5(ob, timeout_s=None):
         os.unlink(path)
 
 
+_HINTS = None
+
+
+def hints():
+    """which back end discharged an obligation of this name on the unchanged tree and how long it took (baseline/hints.json).
+    Only the ORDER and the time limits of the attempts depend on it, never a verdict."""
+    global _HINTS
+    if _HINTS is None:
+        try:
+            import json
+
+            from . import VERIF
+
+            _HINTS = json.load(open(os.path.join(VERIF, "baseline", "hints.json")))
+        except (OSError, ValueError):
+            _HINTS = {}
+    return _HINTS
+
+
 def discharge(ob, both=False, use_cvc5=True):
     """z3 (short) -> z3 on the arithmetic generalisation -> cvc5 -> z3 (long).  Only unsat = discharged."""
-    r, dt, model, reason = run_z3(ob, 2000)
+    h = hints().get(getattr(ob, "name", None) or "")
+    first_ms = 2000
+    if h:
+        if set(h["backends"]) == {"z3"} and h["max_time"] > 0.5:
+            # known to need a longer plain z3 run: give it 8x its time (load on 16 cores) before the expensive detours
+            first_ms = int(min(60000, max(4000, 8000 * h["max_time"])))
+        elif "z3" not in h["backends"]:
+            first_ms = 1000
+    r, dt, model, reason = run_z3(ob, first_ms)
     ob.time = dt
     tried = ["z3"]
+    if r == "unknown" and h and "z3" not in h["backends"] and use_cvc5 and "cvc5" in h["backends"]:
+        r2, dt2, why = run_cvc5(ob, max(CVC5_TIMEOUT_S, int(8 * h["max_time"]) + 5))
+        ob.time += dt2
+        if r2 == "unsat":
+            ob.verdict, ob.backend = "discharged", "cvc5"
+            return ob
     if r == "unknown":
         ra, dta = run_z3_abstract(ob, 3000)
         ob.time += dta
@@ -148,11 +181,10 @@ def discharge(ob, both=False, use_cvc5=True):
             if r2 == "unsat":
                 ob.verdict, ob.backend = "discharged", "cvc5"
                 return ob
-            if r2 == "sat":
-                ob.verdict, ob.backend, ob.reason = "refuted", "cvc5", "cvc5 sat (no model extracted)"
-                return ob
+            # a cvc5 `sat` is not taken as a refutation: the exported text differs from the z3 terms in the semantics of
+            # out-of-range seq.nth, and no model is read back; z3 gets its long run and only its `sat` (with a model) counts
             reason = f"z3: {reason}; cvc5: {why}"
-        r, dt, model, reason2 = run_z3(ob)
+        r, dt, model, reason2 = run_z3(ob, max(Z3_TIMEOUT_MS, 3 * first_ms))
         ob.time += dt
         if r == "unknown":
             # last resort: fewer hypotheses.  Dropping hypotheses is sound for proving (unsat of a subset implies unsat of
